@@ -106,11 +106,17 @@ Definition mstate_eqb (a b : mstate) : bool :=
   | _, _ => false
   end.
 
+(** what a part record (sha256-<h>-partial-<i>, JSON {N, Offset, Size, Completed}) says: it is rewritten in place
+    (open with O_TRUNC, then encode), so a crash can leave it empty *)
+Inductive prstate := PRTorn | PRTodo | PRDone.   (* empty / Completed < Size / Completed = Size *)
+Definition prstate_eqb (a b : prstate) : bool :=
+  match a, b with PRTorn, PRTorn | PRTodo, PRTodo | PRDone, PRDone => true | _, _ => false end.
+
 (** ** Debris: files in blobs/ whose name is not [sha256-<64 hex>] *)
 Inductive dfile :=
 | DTemp                      (* os.CreateTemp(blobs, "sha256-") of NewLayer *)
 | DPartial (h : N)           (* sha256-<h>-partial *)
-| DPartRec (h : N) (i : N)   (* sha256-<h>-partial-<i> *)
+| DPartRec (h : N) (i : N) (st : prstate)   (* sha256-<h>-partial-<i> *)
 | DColon (h c : N)           (* sha256:<h> holding content c: a blob file of an old version (before fixBlobs) *)
 | DColonPartial (h : N).     (* sha256:<h>-partial of an old version *)
 
@@ -118,7 +124,7 @@ Definition dfile_eqb (a b : dfile) : bool :=
   match a, b with
   | DTemp, DTemp => true
   | DPartial h, DPartial h' => h =? h'
-  | DPartRec h i, DPartRec h' i' => (h =? h') && (i =? i')
+  | DPartRec h i st, DPartRec h' i' st' => (h =? h') && (i =? i') && prstate_eqb st st'
   | DColon h c, DColon h' c' => (h =? h') && (c =? c')
   | DColonPartial h, DColonPartial h' => h =? h'
   | _, _ => false
@@ -136,6 +142,17 @@ Definition add_debris (d : dfile) (l : list dfile) : list dfile :=
   match d with
   | DTemp => d :: l
   | _ => if existsb (dfile_eqb d) l then l else d :: l
+  end.
+
+Definition is_partrec (h i : N) (d : dfile) : bool :=
+  match d with DPartRec h' i' _ => (h =? h') && (i =? i') | _ => false end.
+Definition drop_partrec (h i : N) (l : list dfile) : list dfile := filter (fun d => negb (is_partrec h i d)) l.
+(** the state of part record [i] of blob [h], if the file exists *)
+Fixpoint partrec_state (h i : N) (l : list dfile) : option prstate :=
+  match l with
+  | [] => None
+  | DPartRec h' i' st :: t => if (h =? h') && (i =? i') then Some st else partrec_state h i t
+  | _ :: t => partrec_state h i t
   end.
 
 Definition remove_all (d : dfile) (l : list dfile) : list dfile := filter (fun x => negb (dfile_eqb d x)) l.
@@ -186,7 +203,9 @@ Inductive effect :=
 | EWriteMan (n : name) (m : mstate) (* write(manifest bytes) *)
 | ERmMan (n : name)                 (* unlink(manifest) *)
 | EFixBlob (h c : N)                (* fixBlobs: rename(blobs/sha256:h, blobs/sha256-h) *)
-| EFixPartial (h : N).              (* fixBlobs: rename(blobs/sha256:h-partial, blobs/sha256-h-partial) *)
+| EFixPartial (h : N)               (* fixBlobs: rename(blobs/sha256:h-partial, blobs/sha256-h-partial) *)
+| EPartRec (h i : N) (st : prstate) (* writePart: open(part record, O_CREAT|O_TRUNC) leaves it PRTorn, the write makes it PRTodo/PRDone *)
+| ERmPart (h i : N).                (* unlink(part record) *)
 
 Definition apply_effect (s : store) (e : effect) : store :=
   match e with
@@ -200,6 +219,8 @@ Definition apply_effect (s : store) (e : effect) : store :=
   | ERmMan n => MkStore (adel name_eqb n (mans s)) (blobs s) (debris s)
   | EFixBlob h c => MkStore (mans s) (aset N.eqb h c (blobs s)) (remove_all (DColon h c) (debris s))
   | EFixPartial h => MkStore (mans s) (blobs s) (add_debris (DPartial h) (remove_all (DColonPartial h) (debris s)))
+  | EPartRec h i st => MkStore (mans s) (blobs s) (DPartRec h i st :: drop_partrec h i (debris s))
+  | ERmPart h i => MkStore (mans s) (blobs s) (drop_partrec h i (debris s))
   end.
 
 Definition apply_list (s : store) (es : list effect) : store := fold_left apply_effect es s.
